@@ -314,4 +314,53 @@ prop('C14',
                   'the ciphersuite trait methods (Field/Group/hash functions) do not panic: T3'],
      design_ref='DESIGN.md section 4 C14')
 
+prop('C12',
+     rt_always=True, rt_budget=12,
+     rt_what='codec sweep on the six real suites: for valid scalar/element/composite encodings every value at bytes 0,1,n/2,n-2,n-1, every single-bit flip, random/0xff/zero strings, wrong '
+             'lengths, special points (identity, small/mixed order, SEC1 tags), out-of-range scalars, wrong header version / ciphersuite id; oracle: decode Ok ==> re-encode == input',
+     level_text='Verus proves, for an abstract ciphersuite and ALL values / ALL byte strings, the real text of the fixed-size codecs of frost-core (serialize/deserialize of '
+                'SerializableScalar, SerializableElement, Identifier, SigningKey, SigningShare, VerifyingShare, VerifyingKey, CoefficientCommitment, NonceCommitment, Nonce, SignatureShare, '
+                'Delta, Sigma, BindingFactor, Signature::default_(de)serialize and the (de)serialize_signature hooks, VerifiableSecretSharingCommitment::(de)serialize(_whole)) against '
+                'contracts that fix `res is Ok <==> dec_X(bytes) is Some` with the exact error per refusal (wrong length before the suite is called, zero identifier / zero signing key, '
+                'identity element, malformed primitive) and `serialize(x) == enc_X(x)`; theorems (lemmas/vprops_codec.rs): dec(enc(x)) == x for every valid x, dec(b) == x ==> enc(x) == b '
+                '(no two byte strings denote the same value) for every framing, given the same two facts for the suite\'s primitive scalar/element codec (T4); executable compositions rt_* / '
+                'canon_* verify deserialize(&serialize(x)) == Ok(x) from the contracts alone.',
+     level_note='T4 (canonicity of each suite\'s PRIMITIVE scalar/element codec: frost-*/src/lib.rs Field::deserialize / Group::deserialize over the curve crates) cannot be brought within '
+                'the verifier\'s reach (external curve arithmetic). It is VALIDATED ON EVERY RUN by a sampled concrete sweep over the six real suites (rt/, labelled sampled, never counted as '
+                'proved). That sweep found two genuine defects (SEC1 compact tag 0x05 accepted by the P-256/secp256k1 suites; non-canonical Ed448 scalars), both repaired in /repo '
+                '(known_findings.txt: fixed) and reported again if they return. The serde/postcard encodings of whole packages and the JSON form are feature-gated code outside the Verus unit: '
+                'covered only by that concrete sweep (round trips, header version / ciphersuite id rejection) and by bounded Kani harnesses on toy suites where listed.',
+     assumptions=['T4: primitive scalar/element codecs of the six suites are canonical and reject identity / out-of-range / non-prime-order inputs (sampled validation on every run, not a proof)',
+                  'serde + postcard + serde_json derive output for whole packages is not verified (sampled round trips only)'],
+     design_ref='DESIGN.md section 4 C12')
+prop('C02',
+     include=['C15'],
+     level_text='The contracts of the signing path are written from RFC 9591 (sections 4.1-4.6, 5.1-5.3) and fix every intermediate value byte for byte / scalar for scalar, for ALL inputs: '
+                'nonce = H3(random_bytes || SerializeScalar(share)) (C15 contracts); commitments = G*nonce; encode_group_commitment_list = concatenation of enc(id)||enc(D)||enc(E) in '
+                'ascending identifier order; binding factor preimage = enc(vk)||H4(msg)||H5(encoded list)||enc(id) and rho_i = H1 of it; group commitment = sum D_i + sum rho_i*E_i; '
+                'challenge = H2(enc(R)||enc(vk)||msg); lambda_i = the Lagrange coefficient at 0 over the package\'s identifiers; z_i = d_i + e_i*rho_i + lambda_i*s_i*c; signature bytes = '
+                'enc(R)||enc(z). Verus proves the real text of those functions against them. The single-signer entry point (SigningKey::sign -> single_sign hook -> default_sign) returns '
+                '(kG, k + c*s) and thm_single_sign_verifies shows it passes RFC 9591 verification under G*s.',
+     level_note='H1..H5 and the scalar/element encodings are the suites\' (T4/T5: abstract functions here); that they are the RFC\'s hash-to-field constructions and encodings, and the BIP-340 '
+                'variants for Taproot (C18 unit), is not decided by this check -- the repo\'s RFC test vectors exercise them. Identifier::try_from(u16) == n*1 is an assumed contract '
+                '(Kani-backed on toy fields). "An independent implementation computes the same bytes" is decided as "equals the RFC formulas written as spec functions".',
+     assumptions=['T5: H1..H5 of each suite are the RFC 9591 / BIP-340 hash functions (abstract functions in the proof)',
+                  'T4: element/scalar encodings of each suite are the RFC encodings',
+                  'Identifier::try_from(u16) (assumed contract)'],
+     design_ref='DESIGN.md section 4 C02')
+prop('C16',
+     level_text='The random source is modelled as a ghost byte stream with a position (T9); Field::random(stream, pos) is an abstract function of the bytes it consumes and consumes at least one. '
+                'Verus proves the real text of generate_secret_polynomial / generate_secret_shares / split / generate_with_dealer, SigningKey::new / random_nonzero (rejection loop, partial '
+                'correctness), dkg part1 / compute_proof_of_knowledge, repair_share_part1, compute_refreshing_shares, batch Verifier::verify, the nonce functions (C15), the generate_nonce and '
+                'single_sign hooks and SigningKey::sign against contracts that state (a) the WHOLE output as a function of (stream, entry position, other arguments) -- hence bit-for-bit '
+                'reproducibility with the same source output; (b) the exit position; (c) which draw feeds which value: key = first non-zero draw, coefficient j = draw j after it, proof nonce '
+                '= first non-zero draw after the coefficients, repair deltas = |H|-1 consecutive draws, one blinder per batch item, 32+32 bytes per nonce pair. Lemmas (lemmas/vspec_nonce.rs): '
+                'draws are read at pairwise different, increasing positions (no draw is used twice within a call).',
+     level_note='NOT decided: "with a different source output every one of those values changes" and "no two of them coincide" are statements about Field::random / H3 being injective on what '
+                'they read (collision-freeness), reduced by the lemmas to distinct stream positions. generate_coefficients (closure over &mut rng inside repeat_with) is an ASSUMED contract '
+                '(Kani-backed, bounded size) -- a change there is not seen by the Verus part. The randomizer seed (frost-rerandomized) is decided in C17\'s unit.',
+     assumptions=['T9 ghost-stream model of CryptoRng', 'generate_coefficients == the next `size` Field::random draws (assumed; Kani bounded)',
+                  'distinct stream positions give distinct values only up to collisions of Field::random / H3'],
+     design_ref='DESIGN.md section 4 C16')
+
 prop('CDEV', level_text='dev', level_note='dev', claimed=False)
